@@ -1,6 +1,6 @@
 """C06 driver: chord shorthand construction."""
 from mingus.core import chords
-from .common import call, nm, txt, names, Shape, listof
+from .common import again, AGAIN, call, nm, txt, names, Shape, listof
 
 # documented meanings -> builder function name (derived textually from the meaning)
 def builder_name(meaning):
@@ -15,11 +15,20 @@ def run_case(c):
         i = {"root": list(root), "sh": sh, "spelled": sp}
         R.append(call("from_shorthand", i, lambda: chords.from_shorthand(root + sp), names))
         if sp == sh:
+            R.append(call("from_shorthand", dict(i, asked=AGAIN), again(lambda: chords.from_shorthand(root + sp)), names))
+        if sp == sh:
             R.append(call("list", {"items": [{"root": list(root), "sh": sh}, {"root": list(root), "sh": "m7"}]},
                           lambda: chords.from_shorthand([root + sh, root + "m7"]), listof(names)))
             if sh in ("", "m7", "9"):
                 R.append(call("list_nc", {"items": [{"root": list(root), "sh": sh}, {"root": list(root), "sh": "m7"}]},
                               lambda: chords.from_shorthand([root + sh, "NC", root + "m7", "N.C."]), listof(names)))
+                # the caller writes into the first silent bar of the answer: the other silent bar is another list
+                def edited_nc():
+                    r = chords.from_shorthand([root + sh, "NC", root + "m7", "N.C."])
+                    r[1].append("G")
+                    return [r[0], [], r[2], r[3]]
+                R.append(call("list_nc", {"items": [{"root": list(root), "sh": sh}, {"root": list(root), "sh": "m7"}], "asked": "the caller wrote into the first silent chord"},
+                              edited_nc, listof(names)))
             fn = chords.chord_shorthand.get(sh)
             if fn is not None:
                 R.append(call("builder", {"root": list(root), "sh": sh, "fn": getattr(fn, "__name__", "?")},
@@ -48,6 +57,7 @@ def run_case(c):
         R.append(call("badroot", {"s": list(s)}, lambda: chords.from_shorthand(s), names))
     elif k == "nc":
         R.append(call("nc", {"s": c["text"]}, lambda: chords.from_shorthand(c["text"]), names))
+        R.append(call("nc", {"s": c["text"], "asked": AGAIN}, again(lambda: chords.from_shorthand(c["text"])), names))
     elif k == "tables":
         R.append(call("tables", {}, lambda: {"constructible": sorted(chords.chord_shorthand), "meaning": sorted(chords.chord_shorthand_meaning)}))
     elif k == "samemeaning":
